@@ -585,6 +585,7 @@ pub fn c09(seed: u64, tier: Tier, index: u64) -> Vec<Episode> {
     let va = g.value_of_len(la);
     let vb = g.value_of_len(lb);
     if is_key {
+        let mut kept: Vec<Key> = Vec::new();
         // each key length is its own entry between the sentinels: A, X(len), B
         for len in first..first + count {
             let kx = if len <= 64 { Key::B(crate::rng::payload(0x4b00 + len as u64, len)) } else { Key::G { len: len as u32, tag: 0x4b00 + len as u64 } };
@@ -597,7 +598,24 @@ pub fn c09(seed: u64, tier: Tier, index: u64) -> Vec<Episode> {
             st.push(Step::Get { h: 0, k: kb.clone(), mode: KeyMode::Ref });
             if g.rng.chance(1, 2) {
                 st.push(Step::Del { h: 0, k: kx, mode: KeyMode::Ref });
+            } else {
+                kept.push(kx);
             }
+        }
+        // relocation phase (round-4 seed C09-R4): the value file grows past an offset-width
+        // boundary, then the value of every key that is still stored moves behind it, so that
+        // the links inside its key record get wider while the key record stays where it is
+        if g.rng.chance(2, 3) {
+            let pad = *g.rng.pick(&[17_000usize, 140_000, 140_000, 2_200_000]);
+            let v = g.value_of_len(pad);
+            st.push(Step::Put { h: 0, k: Key::B(b"\xfepad2".to_vec()), v, mode: KeyMode::Ref });
+            for (i, kx) in kept.iter().enumerate() {
+                let v = g.value_of_len(100 + i % 7);
+                st.push(Step::Put { h: 0, k: kx.clone(), v, mode: KeyMode::Ref });
+                st.push(Step::Get { h: 0, k: kx.clone(), mode: KeyMode::Ref });
+            }
+            st.push(Step::Get { h: 0, k: ka.clone(), mode: KeyMode::Ref });
+            st.push(Step::Get { h: 0, k: kb.clone(), mode: KeyMode::Ref });
         }
     } else {
         let kx = Key::B(b"middle-X".to_vec());
@@ -640,7 +658,13 @@ pub fn c10(seed: u64, tier: Tier) -> Vec<Episode> {
     w.bulk = 3;
     w.put_iter = 2;
     w.strs = 3;
-    let cfg = HistCfg { maps: maps.clone(), alphabet: g.rng.range(2, 60) as usize, kd: KeyDist::Short, vd: ValDist::Tiny, steps: g.rng.range(10, 150) as usize, w, one_bucket: false, reopen_params: false, xproc_every: if thorough { 1 } else { 0 }, bulk_max: 10 };
+    // now and then values that move records across the offset-width boundaries of the files, so
+    // that key records are relocated between two traversals (round-4 seed C10-R4: a stale
+    // "offset -> decoded key" cache is only visible to the iterators)
+    let vd = *g.rng.pick(&[ValDist::Tiny, ValDist::Tiny, ValDist::Pushing, ValDist::Mixed]);
+    let kd = if kt.is_int() { KeyDist::Short } else { *g.rng.pick(&[KeyDist::Short, KeyDist::Short, KeyDist::Mixed]) };
+    let steps = if vd == ValDist::Tiny { g.rng.range(10, 150) } else { g.rng.range(10, 70) } as usize;
+    let cfg = HistCfg { maps: maps.clone(), alphabet: g.rng.range(2, 60) as usize, kd, vd, steps, w, one_bucket: false, reopen_params: false, xproc_every: if thorough { 1 } else { 0 }, bulk_max: 10 };
     let mut st = history(&mut g, &cfg);
     if kt.is_int() {
         // conversions alone (no I/O): boundary and random integers
@@ -756,6 +780,9 @@ pub enum C13Case {
     /// signature byte is foreign as well and the open is attempted as the creating type;
     /// without it the (still correctly signed) stub is opened as another key type
     Short { kt: KType, as_kt: KType, file: u8, len: u64, flip: bool },
+    /// only the bucket table is left (.key/.val removed or emptied); with `flip` its first
+    /// signature byte is foreign and the creating type is used for the open
+    HtxOnly { kt: KType, as_kt: KType, empty: bool, flip: bool },
 }
 
 pub fn c13_cases() -> Vec<C13Case> {
@@ -831,6 +858,16 @@ pub fn c13_cases() -> Vec<C13Case> {
             }
         }
     }
+    for a in ALL_KTYPES {
+        for empty in [false, true] {
+            for b in ALL_KTYPES {
+                if a != b {
+                    v.push(C13Case::HtxOnly { kt: a, as_kt: b, empty, flip: false });
+                }
+            }
+            v.push(C13Case::HtxOnly { kt: a, as_kt: a, empty, flip: true });
+        }
+    }
     v
 }
 
@@ -892,6 +929,15 @@ pub fn c13(seed: u64, _tier: Tier, index: u64) -> Vec<Episode> {
             }
             st.push(Step::Truncate { m: 0, kind: file, len });
             st.push(Step::ForeignOpen { m: 0, as_kt, expect_refused: true, swapped_from: None });
+        }
+        C13Case::HtxOnly { kt, as_kt, empty, flip } => {
+            name = "table-file-only";
+            maps = vec![MapSpec { name: "t".into(), kt, params, dir: 0 }];
+            populate(&mut g, kt, 0, &mut st);
+            if flip {
+                st.push(Step::Corrupt { m: 0, kind: 0, off: 0, xor: 0x01 });
+            }
+            st.push(Step::ForeignOpenHtxOnly { m: 0, as_kt, empty });
         }
         C13Case::Swap { kt, other, file } => {
             name = "swapped-file";
